@@ -69,7 +69,45 @@ func suiteJSON(c *Ctx) {
 		}
 	}
 	jsonSingleColumn(c)
+	jsonBloomDense(c)
 	jsonProbes(c)
+}
+
+// jsonBloomDense: Bloom filters of many sizes filled to 50%..100% before the round trip.  The
+// serialised bitmap of a sparse filter is almost all zero bytes; runs of set bits (every base64
+// sextet value, 0xff bytes, a completely full filter) only occur in well-filled ones.
+func jsonBloomDense(c *Ctx) {
+	rounds := c.scale(12, 80)
+	for r := 0; r < rounds; r++ {
+		for _, redis := range []bool{false, true} {
+			k := eqBloom(redis)
+			size := uint(5 + c.rng.Intn(400))
+			if r%4 == 0 {
+				size = uint(64 * (1 + c.rng.Intn(4)))
+			}
+			fill := []float64{0.5, 0.8, 0.95, 1.0}[c.rng.Intn(4)]
+			n, p := paramsForSize(size, 1+uint(c.rng.Intn(int(size))))
+			kd := k
+			kd.build = func(c *Ctx, v int) interface{} {
+				f, err := bloomCfg{kind: "params", numItems: n, errorRate: p, redis: redis}.build()
+				if err != nil || f == nil {
+					return nil
+				}
+				for i := 0; i < 40*int(size); i++ {
+					a, err := bloomAbs(f, redis)
+					if err != nil || float64(len(a.Bits)) >= fill*float64(a.Size) {
+						break
+					}
+					for j := 0; j < 1+int(size)/16; j++ {
+						f.Insert(randBytes(c.rng, 1+c.rng.Intn(12)))
+					}
+				}
+				c.branch(fmt.Sprintf("bloom-dense-%g", fill))
+				return f
+			}
+			jsonCase(c, kd, 0)
+		}
+	}
 }
 
 func jsonCase(c *Ctx, k eqKind, variant int) {
